@@ -240,6 +240,51 @@ def run(report):
             report.failure("c11-unindent-model", "Lean unindent model and unindent.rs disagree", {"correspondence": "unindent (vlib/c11.py S1)", "op": "unindent", "src": t, "impl": r, "model": m}, no_input=True)
     stats["s1_unindent_texts"] = len(texts)
 
+    # string literal cooking: escape sequences, unicode escapes, indented strings (model vs parser)
+    COOK = ["a", "\\", "n", "t", "r", "\"", "u", "{", "}", "0", "1", "F", "f", "g", "D", "8", "\n", " ", "\u00e9", "'"]
+    contents = list(G.exhaustive(COOK, 3 if tier == "quick" else 4))
+    rngc = random.Random(report.seed ^ 0xc00c)
+    contents += ["".join(rngc.choice(COOK) for _ in range(rngc.randint(4, 12))) for _ in range(4000 if tier == "quick" else 60000)]
+    contents += ["\\u{%s}" % h for h in ["0", "41", "D7FF", "D800", "DFFF", "E000", "10FFFF", "110000", "FFFFFF", "1234567", "", "g", "00000041", "1F600"]]
+    lits = []
+    for c in contents:
+        lits.append((c, False, True, "x := \"%s\"\n" % c))
+        if "\n" in c:
+            lits.append((c, True, True, "x := \"\"\"%s\"\"\"\n" % c))
+            lits.append((c, True, False, "x := \'\'\'%s\'\'\'\n" % c))
+    comp = jv.pbatch([{"op": "compile", "src": t} for _, _, _, t in lits], chunk=2000)
+    lexd = jv.pbatch([{"op": "lex", "src": t} for _, _, _, t in lits], chunk=2000)
+    cook_reqs, cook_cases = [], []
+    for (c, ind, esc, t), r, lx in zip(lits, comp, lexd):
+        kk = classify_jv(r)
+        if kk:
+            report.failure("c11-cook-%s" % kk, "string literal %r: %s" % (t, json.dumps(r)[:200]), {"op": "compile", "src": t, "answer": r})
+            continue
+        # only literals that are ONE string token with exactly this content (no early terminator inside)
+        if "tokens" not in lx:
+            continue
+        st = [k for k in lx["tokens"] if k["kind"] == "StringToken"]
+        dl = 3 if ind else 1
+        if len(st) != 1 or st[0]["length"] != len(c.encode("utf-8")) + 2 * dl or len([k for k in lx["tokens"] if k["kind"] not in ("Whitespace", "Eol", "Eof")]) != 3:
+            continue
+        cook_reqs.append({"op": "cook", "raw": c, "indented": ind, "escapes": esc})
+        cook_cases.append((t, r))
+    cook_model = dr.pbatch(cook_reqs, chunk=5000)
+    cook_out = {}
+    for (t, r), m in zip(cook_cases, cook_model):
+        if "dump" in r:
+            got = {"cooked": r["dump"]["assignments"]["x"]["value"]}
+        else:
+            got = {"error": r.get("error")}
+        key = got.get("error", "ok")
+        cook_out[key] = cook_out.get(key, 0) + 1
+        if m.get("error") == "UNWRAP-FAILED":
+            report.failure("c11-cook-unwrap", "the cooking model reaches the unwrap on this literal", {"op": "compile", "src": t, "impl": got}, no_input=True)
+        elif got != m:
+            report.failure("c11-cook-model", "Lean cook_string model and parser.rs disagree", {"correspondence": "string cooking (vlib/c11.py S1)", "op": "compile", "src": t, "impl": got, "model": m}, no_input=True)
+    stats["s1_cooked_literals"] = len(cook_cases)
+    stats["s1_cook_outcomes"] = cook_out
+
     # ---- S3 ------------------------------------------------------------------------------------
     depths = [256, 1000, 30000] + ([100000] if thorough else [])
     deep_out = {}
